@@ -29,6 +29,9 @@ class Unsupported(Exception):
     pass
 
 
+RAISED = 63          # result value standing for "the method raised"
+
+
 def load_class_methods(relpath, classname):
     path = os.path.join(REPO, relpath)
     with open(path) as f:
@@ -111,12 +114,13 @@ class Compiler:
     """compiles methods of one class; `env` maps attribute paths ('self._lock') to Obj;
     `methods` gives the ASTs of callable methods (own class and inlined collaborators)."""
 
-    def __init__(self, asm, env, methods, prefix=''):
+    def __init__(self, asm, env, methods, prefix='', consts=None):
         self.asm = asm
         self.env = env
         self.methods = methods        # {('self', name) or (path, name): (fn_ast, env_for_callee)}
         self.prefix = prefix
         self.ret_stack = []
+        self.consts = consts or {}     # parameters fixed by the scenario: name -> Python constant (None allowed)
 
     # ---- expressions ---------------------------------------------------------
     def loc(self, name):
@@ -133,7 +137,15 @@ class Compiler:
                 return ('const', n.value)
             raise Unsupported('constant %r' % (n.value,))
         if isinstance(n, ast.Name):
+            if n.id in self.consts:
+                v = self.consts[n.id]
+                return ('const', 0 if v is None else int(v))
             return ('loc', self.loc(n.id))
+        if isinstance(n, ast.Attribute):
+            o = self.lookup(attr_path(n))
+            if o.kind == 'const':
+                return ('const', o.value)
+            raise Unsupported('attribute %s in an expression' % attr_path(n))
         if isinstance(n, ast.UnaryOp) and isinstance(n.op, ast.Not):
             return ('not', self.expr(n.operand))
         if isinstance(n, ast.BoolOp):
@@ -147,7 +159,10 @@ class Compiler:
             ops = {ast.Lt: 'lt', ast.LtE: 'le', ast.Eq: 'eq', ast.NotEq: 'ne', ast.Gt: 'gt', ast.GtE: 'ge'}
             t = type(n.ops[0])
             if t in (ast.Is, ast.IsNot) and isinstance(n.comparators[0], ast.Constant) and n.comparators[0].value is None:
-                # `x is None` for a local that the scenario fixed to a constant
+                # `x is None` for a parameter the scenario fixed, or an attribute the scenario declares (non-)None
+                if isinstance(n.left, ast.Name) and n.left.id in self.consts:
+                    isnone = self.consts[n.left.id] is None
+                    return ('const', int(isnone if t is ast.Is else not isnone))
                 e = ('eq', self.expr(n.left), ('const', 0))
                 return e if t is ast.Is else ('not', e)
             if t not in ops:
@@ -162,6 +177,11 @@ class Compiler:
                 return ('mine', o.name)
             if path.endswith('._semlock._count'):
                 return ('const', 1)     # bound: locks are held with recursion depth 1 in every scenario
+            if path.endswith('._semlock._is_zero'):
+                o = self.lookup(path[:-len('._semlock._is_zero')])
+                return ('semzero', o.name)
+            if path == 'ForkingPickler.loads':
+                return ('const', 0)     # unpickling is outside the model (C12/C13 own serialisation)
         raise Unsupported('expression %s' % ast.dump(n)[:100])
 
     def lookup(self, path):
@@ -182,12 +202,16 @@ class Compiler:
                     a0 = args[0]
                     if isinstance(a0, ast.Constant):
                         blocking = bool(a0.value)
+                    elif isinstance(a0, ast.Name) and a0.id in self.consts:
+                        blocking = bool(self.consts[a0.id])
                     else:
                         raise Unsupported('acquire(block) with a non-constant block argument')
                 if len(args) > 1:
                     t = args[1]
                     if isinstance(t, ast.Constant) and t.value is None:
                         timed = False
+                    elif isinstance(t, ast.Name) and t.id in self.consts:
+                        timed = self.consts[t.id] is not None
                     elif isinstance(t, ast.Name):
                         timed = ('loc', self.loc(t.id))     # decided by the scenario: the local is 0 (None) or 1 (a timeout)
                     else:
@@ -225,6 +249,15 @@ class Compiler:
                 else:
                     raise Unsupported('release on %s' % o.kind)
                 return ('const', 0)
+            if path.endswith('.append'):
+                o = self.lookup(path[:-len('.append')])
+                if o.kind == 'buffer':
+                    self.asm.emit('sem_rel', o.name)       # the buffer as a counting semaphore: the feeder blocks while it is empty
+                    return ('const', 0)
+            if path in self.env and self.env[path].kind == 'pipe_recv':
+                d = dst or self.asm.tmp('msg')
+                self.asm.emit('sem_acq', self.env[path].name, True, False, d)      # blocks until a whole message is in the pipe
+                return ('loc', d)
             # method call on a collaborator / self: inline
             base, meth = path.rsplit('.', 1)
             key = (base, meth)
@@ -329,8 +362,17 @@ class Compiler:
             v = self.value(s.value) if s.value is not None else ('const', 0)
             self.do_return(v)
             return
+        if isinstance(s, ast.Raise):
+            self.do_return(('const', RAISED))
+            return
         if isinstance(s, ast.If):
             c = self.cond(s.test)
+            if c == ('const', 0):
+                self.block(s.orelse)        # statically dead branch (scenario constant): not compiled
+                return
+            if c[0] == 'const' and c[1]:
+                self.block(s.body)
+                return
             lt, lf, le = a.label('then'), a.label('else'), a.label('fi')
             a.emit('br', c, lt, lf)
             a.place(lt)
@@ -417,8 +459,18 @@ class Compiler:
 
     def cond(self, n):
         """condition that may contain calls with effects (acquire(False) as a test)"""
+        return fold(self.cond0(n))
+
+    def cond0(self, n):
         if isinstance(n, ast.UnaryOp) and isinstance(n.op, ast.Not):
-            return ('not', self.cond(n.operand))
+            return ('not', self.cond0(n.operand))
+        if isinstance(n, ast.BoolOp):
+            vals = [self.cond0(v) for v in n.values]
+            op = 'and' if isinstance(n.op, ast.And) else 'or'
+            e = vals[0]
+            for v in vals[1:]:
+                e = (op, e, v)
+            return e
         if isinstance(n, ast.Call):
             return self.value(n)
         if isinstance(n, ast.Compare) and len(n.ops) == 1:
@@ -446,6 +498,30 @@ class Compiler:
         if isinstance(n, ast.BinOp) and isinstance(n.op, (ast.Add, ast.Sub)):
             return ('add' if isinstance(n.op, ast.Add) else 'sub', self.shared_expr(n.left), self.shared_expr(n.right))
         return self.expr(n)
+
+
+def fold(e):
+    """constant folding of scenario constants"""
+    k = e[0]
+    if k == 'not':
+        a = fold(e[1])
+        if a[0] == 'const':
+            return ('const', int(not a[1]))
+        return ('not', a)
+    if k in ('and', 'or'):
+        a, b = fold(e[1]), fold(e[2])
+        if a[0] == 'const':
+            if k == 'and':
+                return b if a[1] else ('const', 0)
+            return ('const', 1) if a[1] else b
+        if b[0] == 'const':
+            if k == 'and':
+                return a if b[1] else ('const', 0)
+            return ('const', 1) if b[1] else a
+        return (k, a, b)
+    if k in ('eq', 'ne') and e[1][0] == 'const' and e[2][0] == 'const':
+        return ('const', int((e[1][1] == e[2][1]) == (k == 'eq')))
+    return e
 
 
 def compile_method(fn_ast, env, methods, asm=None, args=None, prefix=''):
